@@ -68,6 +68,11 @@ func loadTexts() []string {
 	for _, n := range names {
 		out = append(out, fx.Sources[n])
 	}
+	// and texts the loader answers with an error (whatever a load leaves behind must not reach the next one)
+	out = append(out,
+		"module bad1 { namespace \"urn:b1\"; prefix b1; revision 2024-01-01; grouping g { leaf a { type string; } } uses g { refine a { max-elements 3; } } }",
+		"module ok1 { namespace \"urn:o1\"; prefix o1; revision 2024-01-01; grouping g { leaf a { type string; } } uses g { refine a { default \"d\"; } } }",
+		"module bad2 { namespace \"urn:b2\"; prefix b2; revision 2024-01-01; leaf x { type nosuch; } }")
 	return out
 }
 
@@ -119,7 +124,8 @@ func mkOp(f *fx.Fixture, kind string, g, i int, seed int64) op {
 			for k := range texts {
 				m, err := parser.LoadModuleFromString(dschema.MemOpener(mods), texts[(off+k)%len(texts)])
 				if err != nil {
-					return fail(err)
+					sb.WriteString(fail(err))
+					continue
 				}
 				sb.WriteString(dschema.Dump(m))
 			}
